@@ -83,3 +83,35 @@ pub fn classify_refusal(msg: &str) -> Refusal {
         Refusal::Other(msg.to_string())
     }
 }
+
+// ---------------------------------------------------------------- stdout discipline
+// The validation crate prints diagnostics with println!; the harness's own verdict lines
+// must stay parseable, so fd 1 is pointed at /dev/null and the harness writes to a
+// duplicate of the original stdout.
+use std::io::Write;
+use std::sync::{Mutex, OnceLock};
+
+static REAL_STDOUT: OnceLock<Mutex<std::fs::File>> = OnceLock::new();
+
+pub fn mute_stdout() {
+    use std::os::fd::FromRawFd;
+    unsafe {
+        let saved = libc::dup(1);
+        let devnull = libc::open(b"/dev/null\0".as_ptr() as *const libc::c_char, libc::O_WRONLY);
+        if saved >= 0 && devnull >= 0 {
+            libc::dup2(devnull, 1);
+            libc::close(devnull);
+            let _ = REAL_STDOUT.set(Mutex::new(std::fs::File::from_raw_fd(saved)));
+        }
+    }
+}
+
+pub fn say(line: &str) {
+    match REAL_STDOUT.get() {
+        Some(f) => {
+            let mut f = f.lock().unwrap();
+            let _ = writeln!(f, "{}", line);
+        }
+        None => println!("{}", line),
+    }
+}
